@@ -13,8 +13,9 @@ PID = "C03"
 RULE = (
     "Hypothesis-generated histories of 0-8 messages with outcomes success / Exception / BaseException / timeout / "
     "no-result / malformed / unknown task, result-backend failures on a generated subset of saves and 0-2 "
-    "middlewares whose pre_execute/post_execute/on_error/post_save hooks raise for a generated subset of messages, "
-    "A in 1..4, P in 0..3; followed by a saturation probe of A barrier tasks that each wait until all A are running. "
+    "middlewares whose pre_execute/post_execute/on_error/post_save hooks raise for a generated subset of messages, ack "
+    "callbacks that raise, async task bodies with an asynchronous clean-up in `finally` (they outlive their cancellation), "
+    "A in 1..4, P in 0..3; followed by a saturation probe of A barrier tasks that each wait until all A are running and then a burst of A+P+2 slow messages. "
     "Oracle over the trace: number of messages between their first and last observable event never exceeds A; A=1 => "
     "executions disjoint and in delivery order; the barrier opens (A slots usable after the history); every "
     "message is taken and every well-formed one whose pre_execute hooks did not fail is executed. "
@@ -34,8 +35,13 @@ def scenario() -> Any:
         for k in range(A):
             msgs.append({"kind": "async", "at": cm.r9(hist_end + k * gap), "dur": 0.0, "out": "ret", "ack": "sync",
                          "timeout": None, "barrier": True})
-        d["msgs"] = msgs
         nh = len(msgs) - A
+        # after the barrier: a burst of slow messages - the limit must also hold when the history would have
+        # handed out MORE slots than configured (double release), not only fewer (leak)
+        burst_at = cm.r9(hist_end + A * gap + 31.0)
+        for k in range(A + d["P"] + 2):
+            msgs.append({"kind": "async", "at": burst_at, "dur": 1.0, "out": "ret", "ack": "sync", "timeout": None, "burst": True})
+        d["msgs"] = msgs
         mws = []
         for mw in d.pop("mws"):
             spec = {}
@@ -45,13 +51,13 @@ def scenario() -> Any:
         d["mws"] = mws
         d["fail_saves"] = sorted(d["fail_saves"])
         d.update({"N": None, "W": None, "stop": None, "ends": True})
-        d["horizon"] = cm.r9(hist_end + 40.0 + A * gap)
+        d["horizon"] = cm.r9(hist_end + 40.0 + A * gap + 31.0 + 2.0 * (A + d["P"] + 3))
         d["drain"] = 0.0
         return d
 
     hook = st.fixed_dictionaries({"async": st.booleans(), "fail_on": st.sets(st.integers(0, 7), max_size=4)})
     mw = st.dictionaries(st.sampled_from(HOOKNAMES), hook, max_size=4)
-    msg = cm.message(timeouts=(None, None, None, 0.3, "1"), acks=("sync", "async", None))
+    msg = cm.message(timeouts=(None, None, None, 0.3, "1"), acks=("sync", "async", None, "sync_fail", "async_fail"), cleanups=(0, 0, 0.2, 0.4))
     return st.fixed_dictionaries({
         "A": st.integers(1, 4), "P": st.integers(0, 3),
         "ack_type": st.sampled_from(["when_received", "when_executed", "when_saved"]),
@@ -107,6 +113,8 @@ def run_case(sc: Dict[str, Any]) -> Outcome:
     for mw in sc.get("mws", []):
         pre_fail |= set(mw.get("pre_execute", {}).get("fail_on", ()))
     for i in taken:
+        if sc["ack_type"] == "when_received" and str(specs[i].get("ack", "")).endswith("_fail"):
+            continue    # the failing ack callback runs before the task function: the execution is legitimately lost
         if wh.is_good(specs[i]) and i not in pre_fail and i not in entered:
             out.add("C03.d", f"well-formed message {i} was taken but never executed")
     # saturation probe
@@ -119,7 +127,7 @@ def run_case(sc: Dict[str, Any]) -> Outcome:
             out.add("C03.c", f"saturation probe failed: only {nent} of {A} probe tasks ran concurrently after the history "
                              f"(slot leak); probes without barrier_ok={missing}")
     # classification
-    nh = len(specs) - A
+    nh = sum(1 for sp in specs if not sp.get("barrier") and not sp.get("burst"))
     nonsucc = 0
     for i in range(nh):
         sp = specs[i]
